@@ -60,7 +60,8 @@ def gen_cases(rng, n, prop):
             elif k == 1:
                 t = a + ' and ' + gen_cond(rng)           # lower-case connective
             elif k == 2:
-                t = a + ' ' + rng.choice(["17", "'lit'", 'zzz', 'true', 'null', '= 1', '!', ':p', "'oops", '"', "'", "' OR zzz == 3", '"tail', "'a' '", '\\', '#', ';', '}', '17 "'])
+                t = a + ' ' + rng.choice(["17", "'lit'", 'zzz', 'true', 'null', '= 1', '!', ':p', "'oops", '"', "'", "' OR zzz == 3", '"tail', "'a' '", '\\', '#', ';', '}', '17 "',
+                                               '\x00', '\x00 zzz', '\x00 OR zzz == 3', '\x00)', '\x00\x00 AND'])      # a NUL byte does not end the text
             elif k == 3:
                 b = gen_expr(rng)
                 x = rng.choice(['opt', 'zzz', 'name'])
@@ -120,7 +121,12 @@ def filter_property(prop, tier, seed, replay=None):
                         break
             # ---- oracles
             viol = None
-            if prop == 'C14':
+            if a['again'] != a['verdicts'] or (a['verdicts'] == 'B') != (a['search'] == 'B'):
+                # C13/C14/C15 all speak about "the filter text": its outcome may not depend on what was submitted before
+                viol = ('the same text was %s on one submission and %s on the next (FilterFunctionFromQuery %s, BuildFilter %s, FilterFunctionFromQuery again %s)'
+                        % ('rejected' if 'B' in (a['verdicts'], a['search'], a['again']) else 'answered one way', 'accepted' if 'B' in (a['verdicts'], a['search'], a['again']) else 'another',
+                           a['verdicts'], a['search'], a['again']))
+            if viol is None and prop == 'C14':
                 if a['tokens'] is None or 'PANIC' in a['ast'] or 'P' in a['verdicts'] or 'P' in a['search']:
                     viol = 'building or applying the filter panicked'
                 elif a['verdicts'] not in ('B',) and len(docs) >= 2 and docs[-1] == docs[0] and a['verdicts'][-1] != a['verdicts'][0]:
